@@ -1,0 +1,96 @@
+//go:build verif
+
+package types
+
+// Assumed contracts of the liquid vesting module's expected keepers (bank, account, erc20) and the generated
+// getters of Denom; used by the C11 keeper-level contracts in x/liquidvesting/keeper.
+
+/*@
+alias CVA github.com/haqq-network/haqq/x/vesting/types.ClawbackVestingAccount
+alias LvDenom github.com/haqq-network/haqq/x/liquidvesting/types.Denom
+uf modaddr(name string) Addr
+
+func (*Denom).GetBaseDenom
+    inline
+func (*Denom).GetDisplayDenom
+    inline
+func (*Denom).GetOriginalDenom
+    inline
+func (*Denom).GetStartTime
+    inline
+func (*Denom).GetEndTime
+    inline
+func (*Denom).GetLockupPeriods
+    inline
+
+// ---- expected keepers of the liquid vesting module (SDK / other modules; assumed contracts)
+func (AccountKeeper).GetAccount
+    trusted
+    params ak, ctx, addr
+    ensures isdyn(result, *CVA) ==> dyn(result, *CVA) != nil && dyn(result, *CVA) < $alloc && ValidCVA(*dyn(result, *CVA))
+            && (*dyn(result, *CVA)).BaseVestingAccount < $alloc && (*dyn(result, *CVA)).BaseAccount != nil
+func (AccountKeeper).SetAccount
+    trusted
+    params ak, ctx, acc
+    pure
+func (AccountKeeper).GetModuleAddress
+    trusted
+    params ak, moduleName
+    pure
+    def modaddr(moduleName)
+func (BankKeeper).SendCoinsFromAccountToModule
+    trusted
+    params bk, ctx, senderAddr, recipientModule, amt
+    modifies bank_bal
+    ensures result == nil ==> bank_bal == bank_move(old(bank_bal), senderAddr, modaddr(recipientModule), amt)
+    ensures result != nil ==> bank_bal == old(bank_bal)
+func (BankKeeper).SendCoinsFromModuleToAccount
+    trusted
+    params bk, ctx, senderModule, recipientAddr, amt
+    modifies bank_bal
+    ensures result == nil ==> bank_bal == bank_move(old(bank_bal), modaddr(senderModule), recipientAddr, amt)
+    ensures result != nil ==> bank_bal == old(bank_bal)
+func (BankKeeper).MintCoins
+    trusted
+    params bk, ctx, moduleName, amt
+    modifies bank_bal, bank_supply
+    ensures result == nil ==> bank_bal == upd(old(bank_bal), modaddr(moduleName), cadd(old(bank_bal)[modaddr(moduleName)], amt)) && bank_supply == cadd(old(bank_supply), amt)
+    ensures result != nil ==> bank_bal == old(bank_bal) && bank_supply == old(bank_supply)
+func (BankKeeper).BurnCoins
+    trusted
+    params bk, ctx, moduleName, amt
+    modifies bank_bal, bank_supply
+    ensures result == nil ==> bank_bal == upd(old(bank_bal), modaddr(moduleName), csub(old(bank_bal)[modaddr(moduleName)], amt)) && bank_supply == csub(old(bank_supply), amt)
+    ensures result != nil ==> bank_bal == old(bank_bal) && bank_supply == old(bank_supply)
+func (BankKeeper).GetBalance
+    trusted
+    params bk, ctx, addr, denom
+    ensures result.Denom == denom && result.Amount == bank_bal[addr][denom] && result.Amount >= 0
+func (BankKeeper).SetDenomMetaData
+    trusted
+    pure
+// the ERC20 module: registration creates a pair; conversions move coins between the bank and the EVM side
+func (ERC20Keeper).RegisterCoin
+    trusted
+    modifies bank_bal, bank_supply
+    ensures result.1 == nil ==> result.0 != nil
+func (ERC20Keeper).ConvertCoin
+    trusted
+    modifies bank_bal, bank_supply
+func (ERC20Keeper).ConvertERC20
+    trusted
+    modifies bank_bal, bank_supply
+func (ERC20Keeper).ToggleConversion
+    trusted
+    pure
+func (ERC20Keeper).GetTokenPairID
+    trusted
+    pure
+func (ERC20Keeper).GetTokenPair
+    trusted
+    pure
+func (ERC20Keeper).BalanceOf
+    trusted
+    pure
+
+@*/
